@@ -608,7 +608,7 @@ package yang
 //@ func (*Modules).process props C13 C18
 //@   only loop1/ loop2/
 //@   loop 1
-//@     invariant[every-loaded-module-is-collected] forall k string :: visited(k) ==> (exists i int :: 0 <= i && i < len(mods) && mods[i] == ms.Modules[k])
+//@     body_ensures[every-loaded-module-is-collected] len(mods) == old(len(mods)) + 1 && mods[len(mods)-1] == m
 //@   loop 2
 //@     body_ensures[every-collected-module-is-linked] calls("(*Modules).include") > old(calls("(*Modules).include"))
 // C18: what a run starts from. ClearEntryCache leaves an empty cache;
